@@ -8,4 +8,10 @@ theorem life_send_chan : sendChanSize = Hagall.Life.good.sq := rfl
 /-- `handler.disconnect` never blocks (the model's `report`; finding F6 was a blocking send here) -/
 theorem life_report_nonblocking : sends_handler_disconnect = "nonblocking send h.disconnectChan" := rfl
 theorem life_model_nonblocking : Hagall.Life.good.blockingReport = false := rfl
+/-- what a session calls on each frame is `handler.handleFrame`, which never blocks (the model's `frame` event only marks
+    the pump; finding F15 was the scheduler's blocking `HandleFrame` called under the session's frame lock) -/
+theorem life_frame_nonblocking : sends_handler_handleFrame = "nonblocking send h.frameChan" := rfl
+theorem life_frame_handler_passed : "handleFrame" ∈ fields_handler_handleMessage ∧ "dispatcher" ∉ fields_handler_handleMessage := by decide
+theorem life_pump_hands_over : skel_handler_startHandlingFrames = "h.dispatcher.HandleFrame" := rfl
+theorem life_model_frame : Hagall.Life.good.frameUnderLock = false := rfl
 end Hagall.Gen
